@@ -145,6 +145,12 @@ pub enum Edit {
     Move { a: Pos, b: Pos, val: ValSel },
     /// a += val, b += val (e.g. bucket and claimed-weight digit)
     Both { a: Pos, b: Pos, val: ValSel },
+    /// a += w_b·t, b −= w_a·t with w the coefficients of the type's linear relation: the sum /
+    /// weight / norm check still holds and only the bit checks of a and b can refuse the vector
+    /// (plain Move for types without a linear relation)
+    Balanced { a: Pos, b: Pos, t: ValSel },
+    /// the same at exact indices (enumerated sweep over all position pairs)
+    BalancedAt { i: usize, j: usize, t: ValSel },
 }
 
 #[derive(Clone, Debug, Serialize, Deserialize)]
@@ -199,6 +205,7 @@ fn edit_strategy() -> BoxedStrategy<Edit> {
         2 => (pos(), valsel()).prop_map(|(pos, val)| Edit::Add { pos, val }),
         3 => (pos(), pos(), valsel()).prop_map(|(a, b, val)| Edit::Move { a, b, val }),
         2 => (pos(), pos(), valsel()).prop_map(|(a, b, val)| Edit::Both { a, b, val }),
+        4 => (pos(), pos(), valsel()).prop_map(|(a, b, t)| Edit::Balanced { a, b, t }),
     ]
     .boxed()
 }
@@ -272,6 +279,22 @@ pub fn apply_edits(inst: &Inst, v: &mut [BigUint], edits: &[Edit]) {
                     let d = val.big(&p);
                     v[i] = (&v[i] + &d) % &p;
                     v[j] = (&v[j] + &d) % &p;
+                }
+            }
+            Edit::Balanced { .. } | Edit::BalancedAt { .. } => {
+                let (i, j, t) = match e {
+                    Edit::Balanced { a, b, t } => (a.at(n, c), b.at(n, c), t),
+                    Edit::BalancedAt { i, j, t } => (*i % n.max(1), *j % n.max(1), t),
+                    _ => unreachable!(),
+                };
+                if i != j {
+                    let t = t.big(&p);
+                    let (wi, wj) = match affine_weights(inst) {
+                        Some(w) if w.len() == n => (w[i].clone(), w[j].clone()),
+                        _ => (BigUint::one(), BigUint::one()),
+                    };
+                    v[i] = (&v[i] + &wj * &t) % &p;
+                    v[j] = (&v[j] + &p - (&wi * &t) % &p) % &p;
                 }
             }
         }
@@ -813,6 +836,10 @@ pub fn sweep_cfgs(tier: Tier) -> Vec<VdafCfg> {
         mk(Inst::Histogram { f: FieldKind::F128, len: 7, chunk: 3, mt: false }, 4, 1, XofKind::Turbo),
         mk(Inst::Multihot { f: FieldKind::F128, len: 6, max_weight: 3, chunk: 4, mt: false }, 2, 1, XofKind::Biased),
         mk(Inst::L1 { f: FieldKind::F128, max: U(9), len: 3, chunk: 5 }, 2, 1, XofKind::Turbo),
+        // the last chunk holds only claimed-norm / claimed-weight digits
+        mk(Inst::L1 { f: FieldKind::F128, max: U(7), len: 4, chunk: 4 }, 2, 1, XofKind::Turbo),
+        mk(Inst::L1 { f: FieldKind::F64, max: U(1), len: 2, chunk: 2 }, 2, 1, XofKind::Turbo),
+        mk(Inst::Multihot { f: FieldKind::F128, len: 6, max_weight: 3, chunk: 3, mt: false }, 2, 1, XofKind::Turbo),
     ];
     if tier == Tier::Thorough {
         for len in [1usize, 2, 8, 9, 16, 31] {
@@ -834,7 +861,7 @@ impl Check for C02 {
     type Case = Case;
     const ID: &'static str = "C02";
     fn rule(&self) -> String {
-        "(client) valid encoding + 1..3 edits (set/add/move/both at first/last/last-chunk/random positions with values 0,1,2,−1,−2,(p+1)/2,random) sharded by the REAL sharding code through a Type wrapper with identity encoding, verified by the real instance; oracle = independent validity predicate: invalid ⇒ rejected (3 fresh keys re-test), valid ⇒ accepted with outputs = truncation. (tamper) honest report + 1..3 wire operations (bit flip, byte xor, correlated multi-byte changes whose differences cancel under an XOR/sum/multiset fold, field-element +δ keeping the message decodable, truncate/extend, swap/drop/duplicate/replace shares, foreign verifier message) on public share, input shares, verifier shares, verifier message; single effective alteration ⇒ some aggregator fails; otherwise all-finish ⇒ outputs valid (and honest if no input share touched). Non-trivial = invalid or alternative-valid vector, or an alteration that survives decoding; distinct by case hash".into()
+        "(client) valid encoding + 1..3 edits (set/add/move/both/balanced — the last keeps the type's sum/weight/norm relation so that only the bit checks can refuse — at first/last/last-chunk/random positions with values 0,1,2,−1,−2,(p+1)/2,random) sharded by the REAL sharding code through a Type wrapper with identity encoding, verified by the real instance; oracle = independent validity predicate: invalid ⇒ rejected (3 fresh keys re-test), valid ⇒ accepted with outputs = truncation. (tamper) honest report + 1..3 wire operations (bit flip, byte xor, correlated multi-byte changes whose differences cancel under an XOR/sum/multiset fold, field-element +δ keeping the message decodable, truncate/extend, swap/drop/duplicate/replace shares, foreign verifier message) on public share, input shares, verifier shares, verifier message; single effective alteration ⇒ some aggregator fails; otherwise all-finish ⇒ outputs valid (and honest if no input share touched). Non-trivial = invalid or alternative-valid vector, or an alteration that survives decoding; distinct by case hash".into()
     }
     fn assumptions(&self) -> Vec<String> {
         vec!["soundness error of the FLP over Field64/Field128 (≤ 2^-50 per attempt); acceptance is only reported after 4 independent verification keys accept".into()]
@@ -861,6 +888,27 @@ impl Check for C02 {
             for j in 0..n {
                 targets.push((MsgSel::VerifierShare(j as u8), v_elems));
             }
+            // every pair of positions of the encoded vector, altered so that the type's linear
+            // relation still holds (client-side: honest proof over the edited vector)
+            if affine_weights(&cfg.inst).is_some() {
+                let nin = cfg.inst.input_len();
+                for a in 0..nin {
+                    for b in 0..nin {
+                        if a == b {
+                            continue;
+                        }
+                        i += 1;
+                        if i % nshards != shard {
+                            continue;
+                        }
+                        let t = [ValSel::One, ValSel::MinusOne, ValSel::Two][(a + b) % 3];
+                        let c = Case::Client { cfg: cfg.clone(), ctx: Hex(b"sweep".to_vec()), key_seed: 3000 + (a * nin + b) as u64, nonce_seed: 51 + ci as u64, rand_seed: 61 + ci as u64, base: meas.clone(), edits: vec![Edit::BalancedAt { i: a, j: b, t }] };
+                        if !f(c) {
+                            return;
+                        }
+                    }
+                }
+            }
             for (msg, count) in targets {
                 for at in 0..count {
                     i += 1;
@@ -877,7 +925,7 @@ impl Check for C02 {
         }
     }
     fn enumerated_space(&self, tier: Tier) -> Option<String> {
-        Some(format!("{} fixed configurations × every field-element position of the leader input share (measurement and proof shares) and of every aggregator's verifier share, each altered by a non-zero delta", sweep_cfgs(tier).len()))
+        Some(format!("{} fixed configurations × every field-element position of the leader input share (measurement and proof shares) and of every aggregator's verifier share, each altered by a non-zero delta; for the types with a linear relation (histogram, multihot, L1-bound) every ordered pair of positions of the encoded vector altered so that the linear relation still holds, sharded with an honest proof", sweep_cfgs(tier).len()))
     }
     fn run(&self, case: &Case) -> Outcome {
         let mut obs = Obs::new();
